@@ -149,12 +149,12 @@ impl Buckets {
     /// table size the documentation promises for this parameter
     pub fn expected_n(self) -> u64 {
         match self {
-            Buckets::Size(n) => n.next_power_of_two(),
+            Buckets::Size(n) => n.checked_next_power_of_two().unwrap_or(1 << 63),
             Buckets::Capacity(c) => {
                 if c < 8 {
                     8
                 } else {
-                    (c + c / 8).next_power_of_two()
+                    c.saturating_add(c / 8).checked_next_power_of_two().unwrap_or(1 << 63)
                 }
             }
             Buckets::Default => 16 * 1024 * 1024,
@@ -265,6 +265,15 @@ impl Cfg {
             17..=19 => Buckets::Capacity(rng.range(1, 60000)),
             _ => Buckets::Default,
         }
+    }
+    /// parameters for opening a map that exists already: the table-size parameter is ignored then, whatever it says -
+    /// also values nobody could create a map with
+    pub fn random_reopen(rng: &mut Rng) -> Cfg {
+        let mut c = Cfg::random(rng, false);
+        if rng.chance(1, 5) {
+            c.buckets = *rng.pick(&[Buckets::Capacity(0), Buckets::Size(0), Buckets::Size(1 << 40), Buckets::Capacity(u64::MAX), Buckets::Capacity(u64::MAX / 8), Buckets::Default]);
+        }
+        c
     }
     pub fn random(rng: &mut Rng, allow_default: bool) -> Cfg {
         Cfg {
